@@ -285,6 +285,15 @@ func (i fileInfo) ModTime() time.Time { return time.Unix(946684800, 0) }
 func (i fileInfo) IsDir() bool        { return i.dir }
 func (i fileInfo) Sys() any           { return nil }
 
+// StdinFile replaces os.Stdin: under the simulator an empty read-only stream
+// (what a command started with </dev/null sees), otherwise the real one.
+func StdinFile() *File {
+	if f := theFS(); f != nil {
+		return &File{fs: f, ino: &inode{id: -1000}, name: "/dev/stdin", rd: true}
+	}
+	return &File{real: os.Stdin}
+}
+
 func (fl *File) Name() string {
 	if fl.real != nil {
 		return fl.real.Name()
